@@ -415,7 +415,7 @@ def tx_ob(name, tier, part, defs, to, bounds, wit, loops45):
 tx_ob("transmit_map_sel", "quick", 1, ["-DBMASK=0x8101u"], 1800,
       "symbol map: buckets 0, 7 and 15 arbitrary (others empty); table count 2..6 and 1..3 selectors symbolic; CRC and primary index fields symbolic; table lengths concrete",
       ["all_selectors", "six_tables", "all_buckets_used", "only_last_bucket"], 3)
-tx_ob("transmit_map_all", "thorough", 1, [], 3000,
+tx_ob("transmit_map_all", "thorough", 1, [], 6000,
       "symbol map: all 16 buckets arbitrary; table count 2..6 and 1..3 selectors symbolic; CRC and primary index fields symbolic; table lengths concrete",
       ["all_selectors", "six_tables", "all_buckets_used", "only_last_bucket"], 3)
 tx_ob("transmit_lengths_a3", "quick", 2, ["-DAS=3", "-DSEL0=1"], 1800,
